@@ -16,6 +16,13 @@ ASSUMPTIONS = ["free-list queue (AtomicMove / FullSyncMove) delivers each enqueu
 POOL = R.POOL
 T = R.T_ALLOC
 
+def _walk_e(e, depth=0):
+    if not isinstance(e, tuple) or depth > 12: return
+    yield e
+    for x in e:
+        if isinstance(x, tuple): yield from _walk_e(x, depth + 1)
+
+
 def check(ctx):
     fx = ctx.fx
     k = lambda n: f"{POOL} as {T}::{n}"
@@ -64,6 +71,19 @@ def check(ctx):
             s_ = show(e)
             okslot = "get_unchecked_mut" in s_ and "pool" in s_
             ctx.ob("R13.1", f"{k('dealloc_id')}|destroys-own-slot", okslot, body.loc(b), f"destroys `{s_}`; must be pool[slot_id]")
+            # ... for the types that have a destructor: a `needs_drop` test on the way selects the branch where it answered true
+            side = True
+            for x in body.reachable:
+                t_ = body.term(x)
+                if t_[0] == "Switch" and t_[5] == "bool" and body.dominates(x, b):
+                    e_ = strip_casts(dg.expr(t_[1])); neg_ = False
+                    while e_[0] == "un" and e_[1] == "Not": e_ = strip_casts(e_[2]); neg_ = not neg_
+                    if e_[0] == "call" and e_[1].endswith("needs_drop"):
+                        false_t = ([tg for (v, tg) in t_[2] if v == 0] or [None])[0]
+                        yes = t_[3] if not neg_ else false_t
+                        no = false_t if not neg_ else t_[3]
+                        if no is not None and (body.dominates(no, b) or no == b) and not (body.dominates(yes, b) or yes == b): side = False
+            ctx.ob("R13.1", f"{k('dealloc_id')}|destroys-when-the-type-needs-drop", side, body.loc(b), "the destructor runs on the branch where needs_drop::<DataType>() is true (or unconditionally)")
             # the destructor that runs is the payload's: drop_in_place::<ManuallyDrop<T>> / ::<MaybeUninit<T>> / ::<*mut T> compiles and does nothing
             targ = [g[1] for g in (c.get("gargs") or []) if g and g[0] == "T"]
             inert = bool(targ) and (targ[0].split("<")[0].endswith(("ManuallyDrop", "MaybeUninit")) or targ[0].startswith(("*", "&")))
@@ -161,7 +181,19 @@ def check(ctx):
                 ok = owner.endswith(OK2)
                 ctx.ob("R13.3", f"{owner}|calls|{t[1]['fname']}", ok, f"{f['file']}:{t[1]['line']}",
                        f"`{owner.split('::')[-1]}` frees a zero-copy slot through `{t[1]['fname']}` (runs the payload's destructor on the slot's bytes and recycles it); reviewed callers: the container's consume and try_cancel_slot_reserve")
-    ctx.floor("R13.1", 9); ctx.floor("R13.2", 5); ctx.floor("R13.3", 13)
+    # ... and each of those container functions really gives the slot back: exactly one allocator dealloc of its own argument on every path
+    # (an un-leak / release that forgets the dealloc loses the slot for good: the channel never again accepts BUFFER_SIZE events)
+    for adt in (R.AZC, R.FZC):
+        for fn in FREEING:
+            for kk in [x for x in fx.by_key if x.startswith(adt + " as ") and x.endswith("::" + fn)]:
+                bb = Body(fx.fn(kk)); bd_ = D.Dag(bb)
+                ds = [(b, c) for (b, c) in bb.calls if c.get("fname") in ("dealloc_id", "dealloc_ref", "unleak_slot_id", "unleak_slot_ref", "release_leaked_id", "release_leaked_ref")]
+                blocks = {b for (b, _) in ds}
+                lo, hi, inloop = util.count_on_paths(bb, lambda b: b in blocks)
+                own = all(any(isinstance(x, tuple) and ((x[:1] == ("param",) and x[1] == 2) or (x[0] in ("ref", "mem") and "<arg2>" in x[1])) for x in _walk_e(bd_.expr(c["args"][1]))) for (_, c) in ds if len(c["args"]) > 1)
+                ctx.ob("R13.3", f"{kk}|gives-the-slot-back", (lo, hi) == (1, 1) and not inloop and own, f"{bb.f['file']}:{bb.f['line']}",
+                       f"{lo}..{hi} deallocation(s) of the slot it was given per path; required exactly one")
+    ctx.floor("R13.1", 9); ctx.floor("R13.2", 5); ctx.floor("R13.3", 21)
     # ---------------------------------------------------------------- R13.4 the free list itself: ring shape + wrap safety (shared with C02 / C15)
     # "allocation fails only if all were outstanding", "a deallocated slot becomes allocatable again" and the property's explicit
     # "sequence-counter wrap of the free list" rest on the free-list ring's guards being exact and wrap-safe
